@@ -408,7 +408,7 @@ func check(id, tier string) int {
 				}
 				j := job{Mode: "explore", Prop: id, Families: pc.Families, SeedBase: seedBase, Worker: w, Workers: workers, Start: startIdx,
 					Count: 1 << 30, BudgetS: left, Known: knownPath, Out: filepath.Join(jobsDir, fmt.Sprintf("w%d-%d.json", w, part)), ReplayDir: replayDir, MaxKeep: 2, Tree: hash}
-				out, err := runWorker(bin, j, 2, time.Duration((left+600)*float64(time.Second)))
+				out, err := runWorker(bin, j, 1, time.Duration((left+600)*float64(time.Second)))
 				if err != nil {
 					results[w] = wres{nil, err}
 					return
